@@ -18,7 +18,7 @@ from .common import fl
 PROP = "C19"
 META = {
     "bounds": {"quick": "evaluator: input type x approximator backend (none/default/cc3d/scipy) x matcher (none / threshold with metric, threshold, many-to-one / merge) x decision metric+threshold x metric selections (incl. empty lists) x "
-                        "three flags x class groups (plain, merge, single-instance) x custom handler; each component alone; thresholds free reals, flags free Booleans",
+                        "three flags x class groups (plain, merge, single-instance; ordinary group names or user names that look like the auto-generated group_<i>) x custom handler; each component alone; thresholds free reals, flags free Booleans",
                "thorough": "same (the space is finite apart from the reals and is explored completely)"},
     "stubs": ["ruamel.yaml := structural-identity representer/constructor over a node tree (register_class, to_yaml/from_yaml dispatch, construct_mapping)", "file layer := in-memory model"],
     "assumptions": ["the YAML text layer (quoting, number formatting, tags) is trusted and run for real on every replay", "behavioural equality on every input follows from equal settings by C15",
@@ -121,7 +121,9 @@ def build(ns, ch, what, case):
                                   empty_list_std=members[ch.choice(pfx + "std", 5)])
 
     def groups(pfx):
-        return ns.SegmentationClassGroups({"organ": ns.LabelGroup([1, 2]), "Lesion": ns.LabelMergeGroup([3, 4]), "single": ns.LabelGroup(5, single_instance=True)})
+        # group names: ordinary user names, or user names that look like the auto-generated ones of list-declared groups (other order / suffix)
+        n1, n2, n3 = [("organ", "Lesion", "single"), ("group_1", "group_0", "group_tumor")][ch.choice(pfx + "names", 2)]
+        return ns.SegmentationClassGroups({n1: ns.LabelGroup([1, 2]), n2: ns.LabelMergeGroup([3, 4]), n3: ns.LabelGroup(5, single_instance=True)})
     if what == "naive":
         return naive("m_")
     if what == "merge":
